@@ -219,6 +219,14 @@ func (g *G) spellCC(ds []directive) []string {
 			out = append(out, strings.Trim(l, " \t"))
 		}
 	}
+	// an empty field line is a legal (empty) list: before, between or after the others
+	if len(out) > 0 && g.chance(0.12) {
+		i := g.intn(len(out) + 1)
+		if g.chance(0.5) {
+			i = 0
+		}
+		out = append(out[:i:i], append([]string{""}, out[i:]...)...)
+	}
 	return out
 }
 
@@ -250,6 +258,10 @@ func (g *G) num(p *Profile) string {
 	if g.chance(p.PBigNum) {
 		return g.bigNum()
 	}
+	if g.chance(0.04) {
+		// leading zeros are part of 1*DIGIT: a long digit string need not be a large number
+		return strings.Repeat("0", g.pickI(1, 10, 17, 18, 19, 20, 30)) + strconv.Itoa(g.seconds())
+	}
 	return strconv.Itoa(g.seconds())
 }
 
@@ -263,7 +275,8 @@ func (g *G) respDirectives(p *Profile) []directive {
 	}
 	if g.chance(p.PNoCache) {
 		if g.chance(0.4) {
-			ds = append(ds, directive{"no-cache", g.pick(`"X-Secret"`, `"X-Secret"`, `"ETag"`, `"ETag, Last-Modified"`, `"Set-Cookie"`), true})
+			ds = append(ds, directive{"no-cache", g.pick(`"X-Secret"`, `"X-Secret"`, `"ETag"`, `"ETag, Last-Modified"`, `"Set-Cookie"`,
+				`"age"`, `"X-Secret, Age"`, `"x-httpcache-status, X-From-Cache"`, `"Date, cache-control"`), true})
 		} else {
 			ds = append(ds, directive{"no-cache", "", false})
 		}
@@ -477,7 +490,7 @@ func (g *G) genRep(p *Profile, idx int, approx time.Time, conditional bool) Rep 
 		}
 	}
 	if g.chance(p.PLocation) {
-		locs := []string{"/x", "/y", "http://a.test/y", "http://b.test/x", "http://A.test:80/x", "y", "../y", "//b.test/y"}
+		locs := []string{"/x", "/y", "http://a.test/y", "http://b.test/x", "http://A.test:80/x", "y", "../y", "//b.test/y", "//B.TEST:80/y", "//a.test/x", "/x?r=%a", "/y?%"}
 		if g.chance(0.3) {
 			// both fields, e.g. a cross-origin Location and a same-origin Content-Location
 			add("Location", locs[g.intn(len(locs))])
@@ -502,6 +515,8 @@ var nearMisses = []string{
 	// empty segments and dot-segments at the root: "/..//x" is "//x", not "/x" (RFC 3986 §5.2.4)
 	"http://a.test/x%3Fq=1", "http://a.test/x%2541", "http://a.test/xA", "http://a.test/y/%252E%252E/x",
 	"http://a.test//x", "http://a.test/..//x", "http://a.test/.//x", "http://a.test///x", "http://a.test/x/..//x", "http://a.test/x//",
+	// a query is not validated by net/url: incomplete and non-hex escapes reach the key function as they are
+	"http://a.test/x?d=5%2", "http://a.test/x?d=%", "http://a.test/x?d=%zz&e=%4", "http://a.test/x?%",
 }
 
 func (g *G) urlFor(res int, respell bool) string {
@@ -677,7 +692,7 @@ func init() {
 	})
 	profiles["urls"] = derive("urls", func(p *Profile) {
 		p.NReq = [2]int{5, 10}
-		p.URLs, p.PSpelling, p.PVary, p.PUnsafe, p.PReqCC = 29, 0.5, 0.0, 0.0, 0.0
+		p.URLs, p.PSpelling, p.PVary, p.PUnsafe, p.PReqCC = 33, 0.5, 0.0, 0.0, 0.0
 		p.PNoCache, p.PMustReval, p.PSWR, p.PSIE, p.PErrReply, p.PHeuristic = 0, 0, 0, 0, 0, 0
 		p.PLocation, p.PConnHdr, p.PRange, p.PDate, p.PAge = 0, 0, 0, 0, 0
 		p.Statuses = []int{200}
